@@ -111,6 +111,9 @@ def _leaf(draw, leaves, m, allow_tda=True):
     i = draw(st.integers(0, len(leaves) - 1))
     n = leaves[i][2]
     v = {"k": "leaf", "i": i, "size": n}
+    if leaves[i][1] in ("md", "rev") and draw(st.integers(0, 4)) == 0:
+        # md-variable assembled by the caller from atomic variables at a previous time step / iterate
+        v["pre"] = {"kind": draw(st.sampled_from(["t", "i"])), "steps": draw(st.integers(1, 2))}
     if n == m and draw(st.integers(0, 2)) > 0:
         return v
     if draw(st.booleans()):
@@ -323,6 +326,13 @@ class Builder:
             dofs = self.s.es.dofs_of([op])
             self.has_var = True
             self.kinds.add("leaf-" + ("md" if isinstance(op, pp.ad.MixedDimensionalVariable) else "atomic"))
+            pre = nd.get("pre")
+            if pre is not None and shift is None and isinstance(op, pp.ad.MixedDimensionalVariable):
+                # MixedDimensionalVariable built directly from shifted atomic variables (supported by its constructor)
+                subs = [v.previous_timestep(pre["steps"]) if pre["kind"] == "t" else v.previous_iteration(pre["steps"])
+                        for v in op.sub_vars]
+                self.kinds.add("leaf-md-from-shifted")
+                return self.s.stored[(pre["kind"], pre["steps"] - 1)][dofs].copy(), pp.ad.MixedDimensionalVariable(subs)
             if shift is None:
                 return self.X[dofs], op
             return self.s.stored[(shift[0], shift[1] - 1)][dofs].copy(), op
